@@ -131,37 +131,30 @@ Theorem C10_payout_percent : forall payee k payment fee finders amount msgs,
 Proof. exact payout_percent. Qed.
 
 (* ---- non-vacuity: a concrete collection (5 % royalties, created at t0) *)
-Definition ex_info : cinfo :=
-  mkInfo 12 (mkTxt 1 12 false) (mkTxt 2 29 true) None None None (Some (mkRoy 18 50000000000000000)).
-Definition ex_t0 : N := 1647032401000000000.
-Definition ex_s0 : state :=
-  mkSt [] 0 [] (mkOwn (Some 10) None None) ex_info false ex_t0 false false.
-Definition ex_upd (share : N) : op := OUpdateInfo (mkUpd None None None None (Some (mkRoy 18 share)) None).
-
-Example C10_ex_creation : instantiate Base ex_t0 true [] 10 ex_info = Ok ex_s0.
+Example C10_ex_creation : instantiate Base c10_ex_t0 true [] 10 c10_ex_info = Ok c10_ex_s0.
 Proof. vm_compute. reflexivity. Qed.
 Example C10_ex_creation_above_100 :
-  instantiate Base ex_t0 true [] 10
+  instantiate Base c10_ex_t0 true [] 10
     (mkInfo 12 (mkTxt 1 12 false) (mkTxt 2 29 true) None None None (Some (mkRoy 18 1000000000000000001))) = Err.
 Proof. vm_compute. reflexivity. Qed.
 Example C10_ex_raise_2_points_at_24h :
-  share_of (run Base 11 ex_s0 [(mkEnv (ex_t0 + 86400000000000) 12 [], ex_upd 70000000000000000)]) = Some 70000000000000000.
+  share_of (run Base 11 c10_ex_s0 [(mkEnv (c10_ex_t0 + 86400000000000) 12 [], c10_ex_upd 70000000000000000)]) = Some 70000000000000000.
 Proof. vm_compute. reflexivity. Qed.
 Example C10_ex_raise_2_points_plus_1_refused :
-  step Base 11 (mkEnv (ex_t0 + 86400000000000) 12 []) (ex_upd 70000000000000001) ex_s0 = Err.
+  step Base 11 (mkEnv (c10_ex_t0 + 86400000000000) 12 []) (c10_ex_upd 70000000000000001) c10_ex_s0 = Err.
 Proof. vm_compute. reflexivity. Qed.
 Example C10_ex_one_ns_early_refused :
-  step Base 11 (mkEnv (ex_t0 + 86399999999999) 12 []) (ex_upd 40000000000000000) ex_s0 = Err.
+  step Base 11 (mkEnv (c10_ex_t0 + 86399999999999) 12 []) (c10_ex_upd 40000000000000000) c10_ex_s0 = Err.
 Proof. vm_compute. reflexivity. Qed.
 Example C10_ex_climb_stops_at_10 :
   let day := 86400000000000 in
-  let calls := [(mkEnv (ex_t0 + 1 * day) 12 [], ex_upd 70000000000000000);
-                (mkEnv (ex_t0 + 2 * day) 12 [], ex_upd 90000000000000000);
-                (mkEnv (ex_t0 + 3 * day) 12 [], ex_upd 100000000000000000);
-                (mkEnv (ex_t0 + 4 * day) 12 [], ex_upd 100000000000000001);
-                (mkEnv (ex_t0 + 5 * day) 12 [], ex_upd 120000000000000000)] in
-  share_of (run Base 11 ex_s0 calls) = Some 100000000000000000 /\
-  accepted_changes Base 11 ex_s0 calls = [ex_t0 + 1 * day; ex_t0 + 2 * day; ex_t0 + 3 * day].
+  let calls := [(mkEnv (c10_ex_t0 + 1 * day) 12 [], c10_ex_upd 70000000000000000);
+                (mkEnv (c10_ex_t0 + 2 * day) 12 [], c10_ex_upd 90000000000000000);
+                (mkEnv (c10_ex_t0 + 3 * day) 12 [], c10_ex_upd 100000000000000000);
+                (mkEnv (c10_ex_t0 + 4 * day) 12 [], c10_ex_upd 100000000000000001);
+                (mkEnv (c10_ex_t0 + 5 * day) 12 [], c10_ex_upd 120000000000000000)] in
+  share_of (run Base 11 c10_ex_s0 calls) = Some 100000000000000000 /\
+  accepted_changes Base 11 c10_ex_s0 calls = [c10_ex_t0 + 1 * day; c10_ex_t0 + 2 * day; c10_ex_t0 + 3 * day].
 Proof. vm_compute. split; reflexivity. Qed.
 Example C10_ex_payout_10pct_of_1000 :
   royalty_payout (Some (mkRoy 18 100000000000000000)) 1000 900 None = Ok (100, [Send 18 NATIVE 100]) /\
